@@ -1,16 +1,16 @@
 SPECIFICATION Spec
-CONSTANTS MaxMono = 1
+CONSTANTS MaxMono = 0
  CoefSet <- Coefs3
- MaxOps = 10
- MaxSize = 12
- InitP <- UniverseP
- InitQ <- QWide
- InitR <- RWide
+ MaxOps = 4
+ MaxSize = 9
+ InitP <- ZeroOnly
+ InitQ <- ZeroOnly
+ InitR <- ZeroOnly
  Gens <- GensSmall
  Scalars <- ScalarsSmall
- Kinds <- KindsAll
+ Kinds <- KindsOps
  Record = TRUE
- EmitAll = FALSE
+ EmitAll = TRUE
 INVARIANT NormalForm
 INVARIANT EvalCommutes
 INVARIANT EvalDefined
